@@ -22,7 +22,7 @@ import threading
 
 from common import MachineryFailure
 
-CASE_FIELDS = ("helper", "reg", "ka", "kd", "a", "au", "d", "du", "rt", "at")
+CASE_FIELDS = ("helper", "reg", "ka", "kd", "a", "au", "d", "du", "rt", "at", "sa", "sd", "en")
 _PMAP = threading.Lock()
 
 
@@ -51,6 +51,8 @@ def _key(r):
         "atol": r["atol"],
         "rtol": r["rtol"],
         "units": r["units"],
+        "values": r["values"],
+        "equal_nan": r["equal_nan"],
     }
 
 
@@ -63,12 +65,16 @@ def _validate_close(ck, cases, obs, label, nchunks=1):
     groups contiguous and validates the chunks concurrently"""
     gid = {}
     recs = []
+    # the boolean form's outcome on the same arguments (pairing by the FormKey TLC computed; projection only)
+    boolean = {json.dumps(c["form"], sort_keys=True): o for c, o in zip(cases, obs) if c.get("form") and c["helper"] == "allclose_units"}
+    none = {"k": "none", "exc": "", "v": []}
     for c, o in zip(cases, obs):
         ph = c.get("phys") or []
         g = 0
         if ph:
             g = gid.setdefault(json.dumps(ph, sort_keys=True), len(gid) + 1)
-        recs.append({"c": _strip(c), "obs": o, "g": g})
+        twin = boolean.get(json.dumps(c["form"], sort_keys=True), none) if c.get("form") and c["helper"] == "assert_allclose_units" else none
+        recs.append({"c": _strip(c), "obs": o, "g": g, "twin": twin})
     order = sorted(range(len(recs)), key=lambda k: (recs[k]["g"], k))
     recs = [recs[k] for k in order]
     cases = [cases[k] for k in order]
@@ -107,11 +113,19 @@ def _nontrivial_close(c):
 
 
 def _pipe_close(ck):
-    cfg = ck.q("MC_C19_quick", "MC_C19_thorough")
-    res = ck.tlc("MC_C19", cfg, workers=1, coverage=False, label=f"closeness/equality case table {cfg}", timeout=3000)
-    cases = [r["c"] for r in res.by_tag("CASE")]
-    if len(cases) != res.distinct - 1 or len(cases) < 1000:
-        raise MachineryFailure(f"exported {len(cases)} cases for {res.distinct} states")
+    tier = ck.q("quick", "thorough")
+
+    def gen(part):
+        cfg = f"MC_C19_{tier}_{part}"
+        res = ck.tlc("MC_C19", cfg, workers=1, coverage=False, label=f"closeness/equality case table {cfg}", timeout=3000)
+        part_cases = [r["c"] for r in res.by_tag("CASE")]
+        if len(part_cases) != res.distinct - 1 or len(part_cases) < 500:
+            raise MachineryFailure(f"exported {len(part_cases)} cases for {res.distinct} states ({cfg})")
+        return part_cases
+
+    with cf.ThreadPoolExecutor(max_workers=3) as ex:
+        parts = list(ex.map(gen, ("tol", "kind", "misc")))
+    cases = [c for p in parts for c in p]
     cases.sort(key=lambda c: json.dumps(_strip(c), sort_keys=True))
     by, cex = {}, {}
     for c in cases:
@@ -190,7 +204,16 @@ def run(ck):
 
             _apply(ck, c19_hist.validate(ck, [case], obs, "replay"), "hist_p_fail_classes")
         else:
-            _apply(ck, _validate_close(ck, [dict(case, phys=[])], obs, "replay"), "close_p_fail_classes")
+            case.setdefault("sa", [""] * len(case["a"]))
+            case.setdefault("sd", [""] * len(case["d"]))
+            case.setdefault("en", "")
+            cases = [dict(case, phys=[], form=[])]
+            if case["helper"] == "assert_allclose_units":  # its boolean twin, for the form-consistency clause
+                cases.append(dict(case, helper="allclose_units", phys=[], form=[]))
+                for c in cases:
+                    c["form"] = ["twin"]
+                obs = obs + pmap(ck, [cases[1]], nproc=1)
+            _apply(ck, _validate_close(ck, cases, obs, "replay"), "close_p_fail_classes")
         return
 
     with cf.ThreadPoolExecutor(max_workers=3) as ex:
